@@ -308,8 +308,12 @@ impl Prop for C15 {
             script.push(c.clone());
             mon::journal(&script.join("\n"));
             let mark = s.mark();
+            // the front end may hold a snapshot of the listing (its line editor does) while the command runs
+            let held = if rng.coin() { Some(s.rt.get_listing()) } else { None };
             s.enter(&c);
-            if s.drain(200_000) != Stop::Stopped {
+            let st_cmd = s.drain(200_000);
+            drop(held);
+            if st_cmd != Stop::Stopped {
                 ctx.violation("no-stop", "store:no-stop", &format!("{:?} did not return to the prompt", c), &script.join("\n"));
                 return;
             }
@@ -455,6 +459,46 @@ impl Prop for C15 {
                         return;
                     }
                 }
+            }
+        }
+        // the same numbered lines and bare numbers, fed to Listing::load_str (what LOAD does with a file): a bare
+        // number removes its line there too
+        {
+            let mut listing = Listing::default();
+            let mut m2: BTreeMap<u32, String> = BTreeMap::new();
+            let mut fed = 0;
+            for c in script.iter() {
+                let t = c.trim_start();
+                if !t.starts_with(|ch: char| ch.is_ascii_digit()) || t.len() > 300 {
+                    continue;
+                }
+                let digits: String = t.chars().take_while(|ch| ch.is_ascii_digit()).collect();
+                let n: u32 = match digits.parse() {
+                    Ok(n) if n <= 65529 => n,
+                    _ => continue,
+                };
+                let rest = t[digits.len()..].trim();
+                if listing.load_str(t).is_err() {
+                    continue;
+                }
+                fed += 1;
+                if rest.is_empty() {
+                    m2.remove(&n);
+                } else {
+                    m2.insert(n, format!("{} {}", n, rest));
+                }
+            }
+            let got: Vec<String> = listing.lines().map(|l| l.to_string()).collect();
+            let want: Vec<String> = m2.values().cloned().collect();
+            ctx.add("lines_fed_to_load_str", fed);
+            if got != want {
+                ctx.violation(
+                    "store-diverged",
+                    "store:load_str",
+                    &format!("the numbered lines and bare numbers of this history, fed to Listing::load_str, give {:?}; the ordered-map model has {:?}", got, want),
+                    &script.join("\n"),
+                );
+                return;
             }
         }
         let text = script.join("\n");
